@@ -182,6 +182,22 @@ class Oracle:
         if sorted(events, key=str) != sorted(oevents, key=str):
             self.hit("observe-differs-from-on-trait-change", "", "observe and on_trait_change handlers saw different "
                      "events", otc=D.show_events(events), observe=D.show_events(oevents))
+        # -- a valid assignment through a complete chain (within the recursion limit) is not refused
+        if exc is not None and k == "st" and opcfg:
+            levels, end = self.chain(op[1], opa)
+            if end[0] == "T":
+                try:
+                    w.env.pure(end[2].vid, w.env.op_index, op[3])
+                    ok = True
+                except Exception:
+                    ok = False
+                if ok:
+                    self.hit("valid-write-refused", opcfg, "assignment through a deferring attribute raised %s "
+                             "although the chain ends in a typed attribute whose validator accepts the value"
+                             % D.exc_name(exc), obj=op[1], name=op[2], value=op[3], levels=len(levels))
+        if exc is not None and k == "dl" and opcfg and self.chain(op[1], opa)[1][0] == "T":
+            self.hit("valid-delete-refused", opcfg, "deletion through a deferring attribute raised %s although the "
+                     "chain ends in a typed attribute" % D.exc_name(exc), obj=op[1], name=op[2])
         # -- a failing assignment / deletion changes nothing and notifies nobody
         if exc is not None and k in ("st", "dl") and opcfg is not None:
             if before != after:
